@@ -284,8 +284,8 @@ def wirelessDisable : List String := {_l(_disable_sets(AIR, "WirelessNetworkInte
 /-- `WirelessAccessPoint.receive_frame` = `RouterInterface.receive_frame` statement for statement (logging aside) -/
 def wapReceiveIsRouterInterfaceReceive : Bool := {"true" if _wireless()[0] else "false"}
 /-- `AirSpace.transmit`; first statement of `WirelessNetworkInterface.send_frame` -/
-def airTransmit : List String := {_l([x.replace(chr(10), " ; ") for x in _wireless()[1]])}
-def wirelessSendGuard : List String := {_l([x.replace(chr(10), " ; ") for x in _wireless()[2]])}
+def airTransmit : List String := {_l([y.strip() for x in _wireless()[1] for y in x.split(chr(10))])}
+def wirelessSendGuard : List String := {_l([y.strip() for x in _wireless()[2] for y in x.split(chr(10))])}
 /-- every definition of a translated method under simulator/network -/
 def definers : List String := {_l(_overriders())}
 end Primaite.Gen.FilterPower
